@@ -47,6 +47,9 @@ Next == \E ns \in BOOLEAN, dg \in BOOLEAN : Iterate(ns, dg)
 Spec == Init /\ [][Next]_vars
 
 Done == pc \in {"converged", "failed"}
+\* liveness: whatever the numeric predicates answer, the search stops (checked under weak fairness)
+FairSpec == Spec /\ WF_vars(Next)
+Termination == <>Done
 \* C17: failed is set exactly when the iteration cap was reached
 FailedIffCap == (pc = "failed") => circles = maxit
 ConvergedMeans == pc = "converged" => numchg = 1 + nex /\ (dirchg > 1 \/ degen) /\ circles <= maxit
